@@ -67,6 +67,9 @@ void lemma_CompoundParser(void)
 #ifdef NEL
   n = NEL;     /* one query per number of elements: constant array sizes keep the queries small */
 #endif
+#ifdef SCAN_OK
+  ok = SCAN_OK;   /* value lemmas: one query per scanner outcome, so that the scanner stub has a single path and the element list it returns is a constant-size object */
+#endif
   __CPROVER_assume(n >= 1 && n <= NMAXEL);
   g_n = n; g_scan_ok = ok; s[1] = 0;
   for (i = 0; i < NMAXEL; i++) {
